@@ -311,6 +311,25 @@ Proof.
     exists a, c. exact E.
 Qed.
 
+(* the same two statements with the modifier's slices as needles and RFC 4648 as haystack *)
+Theorem offset_hit_rfc : forall pre p suf, bytes_ok (pre ++ p ++ suf) = true ->
+  exists i, (i < 3)%nat /\ infix (variant i p) (rfc4648 (pre ++ p ++ suf)).
+Proof.
+  intros pre p suf Hok. rewrite <- b64_rfc4648 by exact Hok. apply offset_hit, Hok.
+Qed.
+
+Theorem offset_payload_only_rfc : forall i pre p suf,
+  (length pre mod 3 = i)%nat -> p <> [] -> bytes_ok (pre ++ p ++ suf) = true ->
+  occurs_at (4 * (length pre / 3) + start_off i) (variant i p) (rfc4648 (pre ++ p ++ suf)).
+Proof.
+  intros i pre p suf Hi Hne Hok.
+  assert (Hp : bytes_ok p = true).
+  { apply bytes_ok_app in Hok. destruct Hok as [_ H]. apply bytes_ok_app in H. tauto. }
+  assert (Hi3 : (i < 3)%nat) by (rewrite <- Hi; apply Nat.mod_upper_bound; lia).
+  rewrite variant_payload_text by assumption. rewrite <- b64_rfc4648 by exact Hok.
+  apply payload_text_occurs; assumption.
+Qed.
+
 (* the boolean search used by the correspondence judge decides "occurs in" *)
 Lemma infixb_spec v t : infixb v t = true <-> infix v t.
 Proof.
